@@ -689,12 +689,20 @@ def oracle(inp):
             if s == 6:
                 return f"a lifecycle call was cancelled from inside [kind={kind} labels={labels[:step + 1]}]"
         # a second concurrent serve_forever is refused
+        # (inside the gated start-up window of a standalone server a pending call may simply be blocked on a lock)
+        in_window = kind in (2, 3) and gates[0] == 1
         running = [i for i, (k, s) in enumerate(zip(kinds, st)) if k == L_SERVE and s == 0]
-        if len(running) > 1:
+        if len(running) > 1 and not in_window:
             return f"two serve_forever calls are running concurrently [kind={kind} labels={labels[:step + 1]}]"
         if lab == L_SERVE and len(prev) < len(st):
             was_running = any(k == L_SERVE and s == 0 for k, s in zip(call_kinds, prev))
-            if was_running and st[-1] != 2:
+            if in_window and st[-1] == 0:
+                pass
+            elif was_running and closed_ok_at is not None:
+                # both refusals apply; the asynchronous server checks "running" first, the standalone one "closed" first
+                if st[-1] not in (2, 3):
+                    return f"serve_forever on a closed and still running server not refused (status {st[-1]}) [kind={kind} labels={labels[:step + 1]}]"
+            elif was_running and st[-1] != 2:
                 return f"second concurrent serve_forever not refused with ServerAlreadyRunning (status {st[-1]}) [kind={kind} labels={labels[:step + 1]}]"
             if closed_ok_at is not None and not was_running and st[-1] not in (3,):
                 return f"serve_forever on a closed server not refused with ServerClosedError (status {st[-1]}) [kind={kind} labels={labels[:step + 1]}]"
